@@ -2,13 +2,14 @@
 # usage: tools/seedtest_copy.sh <patch.diff> <PID> <tier> [extra args]  -- runs the check against a scratch worktree with the patch
 # applied (VERIF_MC_REPO), leaving /repo and /verif/evidence untouched.  Prints the verdict lines.
 patch="$1"; pid="$2"; tier="$3"; shift 3
+ROOT=${VERIF_ROOT:-$(cd "$(dirname "$0")/.." && pwd)}
 tag=$(basename $(dirname "$patch"))-$(basename "$patch" .diff)-$pid
 wt=/tmp/wt/st-$tag
 out=/tmp/wt/st-$tag-out
 rm -rf "$wt" "$out"; git -C /repo worktree add -q --detach "$wt" HEAD || exit 3
 ( cd "$wt" && git apply "$patch" ) || { echo "patch does not apply"; git -C /repo worktree remove --force "$wt"; exit 3; }
 mkdir -p "$out"
-cd /verif && VERIF_MC_REPO="$wt" VERIF_MC_OUT="$out" ./check "$pid" --tier "$tier" "$@" > "$out/log" 2>&1
+cd "$ROOT" && VERIF_MC_REPO="$wt" VERIF_MC_OUT="$out" ./check "$pid" --tier "$tier" "$@" > "$out/log" 2>&1
 rc=$?
 echo "== $tag tier=$tier rc=$rc"
 grep -E "^VIOLATION|^KNOWN|HARNESS" "$out/log" | cut -c1-200 | head -6
